@@ -70,11 +70,14 @@ class ModelMixin3:
             s2 = st.copy()
             return [(StrV(('findtext',)), st), (NoneV(), s2)]
         if name == 'get':
-            s2 = st.copy()
-            self.stats['forks'] += 1
             k = self._arg(args, kwargs, 0, 'key')
             d = self._arg(args, kwargs, 1, 'default', NoneV())
             key = k.v if isinstance(k, Const) else '?'
+            ovr = dict((st.mon.get('sym:attrovr') or {}).get(p.sym, ()))
+            if key in ovr:
+                return [((d if ovr[key] is None else ovr[key]), st)]       # attribute value fixed by the harness (None = absent)
+            s2 = st.copy()
+            self.stats['forks'] += 1
             return [(StrV(('attr', S(p.sym), key)), st), (d, s2)]
         if name == 'set':
             self.hook('elem-store', st, node, elem=p, attr='attrib', value=self._arg(args, kwargs, 1, 'value'))
@@ -278,9 +281,12 @@ class ModelMixin3:
             k = args[0] if args else NoneV()
             default = args[1] if len(args) > 1 else kwargs.get('default', NoneV())
             if attrib_of is not None:
+                key = k.v if isinstance(k, Const) else '?'
+                ovr = dict((st.mon.get('sym:attrovr') or {}).get(attrib_of, ()))
+                if key in ovr:
+                    return [((default if ovr[key] is None else ovr[key]), st)]
                 s2 = st.copy()
                 self.stats['forks'] += 1
-                key = k.v if isinstance(k, Const) else '?'
                 return [(StrV(('attr', S(attrib_of), key)), st), (default, s2)]
             if d.exact and self._is_concrete(k) and all(self._is_concrete(a) for a, _ in d.items):
                 for a, b in d.items:
